@@ -1,6 +1,10 @@
 package props
 
 import (
+	"encoding/json"
+	"fmt"
+	"strings"
+
 	"godcheck/core"
 
 	"golang.org/x/tools/go/ssa"
@@ -24,14 +28,32 @@ func c14Extra(r *core.Run) {
 		if !o.Need(regName != "", "the name passed to base.NewBalancerBuilder in "+p2cPkg) {
 			return
 		}
-		isName := func(v ssa.Value) bool { s, ok := core.ConstString(v); return ok && s == regName }
+		// the config string is evaluated when it is built from constants (literal, concatenation,
+		// Sprintf with %s/%v/%q); otherwise it must at least be built from a constant containing the name
+		selects := func(v ssa.Value) bool {
+			if cfg, ok := c14EvalString(v, 0); ok {
+				var doc struct {
+					LoadBalancingPolicy string                       `json:"loadBalancingPolicy"`
+					LoadBalancingConfig []map[string]json.RawMessage `json:"loadBalancingConfig"`
+				}
+				if json.Unmarshal([]byte(cfg), &doc) != nil {
+					return false
+				}
+				if len(doc.LoadBalancingConfig) > 0 {
+					_, ok := doc.LoadBalancingConfig[0][regName]
+					return ok
+				}
+				return doc.LoadBalancingPolicy == regName
+			}
+			return core.DependsOn(v, func(x ssa.Value) bool { s, ok := core.ConstString(x); return ok && strings.Contains(s, regName) })
+		}
 		// (a) some function of rpc/internal builds WithDefaultServiceConfig from that name and hands it to the dialling method
 		n, okCfg := 0, false
 		for _, f := range p.PkgFuncs(rpcInternal) {
 			for _, c := range core.Calls(f, core.CallTo("google.golang.org/grpc.WithDefaultServiceConfig")) {
 				n++
 				r.Fn(core.FuncName(f))
-				if !core.DependsOn(c.Common().Args[0], isName) {
+				if !selects(c.Common().Args[0]) {
 					o.Fail(p.InstrPos(c), "%s: the default service config is not built from the policy name %q the p2c balancer registers under: clients fall back to pick_first and never balance", core.FuncName(f), regName)
 					continue
 				}
@@ -74,4 +96,79 @@ func c14Extra(r *core.Run) {
 		}
 		o.Site(n, "rpc/internal")
 	})
+}
+
+// c14EvalString evaluates a string expression built from constants: a literal,
+// a concatenation, or fmt.Sprintf with a constant format whose verbs are %s/%v/%q
+// applied to constant strings.
+func c14EvalString(v ssa.Value, depth int) (string, bool) {
+	if depth > 6 {
+		return "", false
+	}
+	v = core.Strip(core.Forward(v))
+	if s, ok := core.ConstString(v); ok {
+		return s, true
+	}
+	switch x := v.(type) {
+	case *ssa.BinOp:
+		if x.Op.String() == "+" {
+			a, ok1 := c14EvalString(x.X, depth+1)
+			b, ok2 := c14EvalString(x.Y, depth+1)
+			return a + b, ok1 && ok2
+		}
+	case *ssa.MakeInterface:
+		return c14EvalString(x.X, depth+1)
+	case *ssa.Call:
+		if core.CalleeName(x) != "fmt.Sprintf" || len(x.Call.Args) != 2 {
+			return "", false
+		}
+		format, ok := c14EvalString(x.Call.Args[0], depth+1)
+		if !ok {
+			return "", false
+		}
+		// the variadic slice: stores of its elements, in index order
+		sl, ok := core.Strip(x.Call.Args[1]).(*ssa.Slice)
+		if !ok {
+			return "", false
+		}
+		al, ok := sl.X.(*ssa.Alloc)
+		if !ok {
+			return "", false
+		}
+		elems := map[int64]string{}
+		for _, r := range *al.Referrers() {
+			ia, ok := r.(*ssa.IndexAddr)
+			if !ok {
+				continue
+			}
+			idx, ok := core.ConstInt(ia.Index)
+			if !ok {
+				return "", false
+			}
+			for _, rr := range *ia.Referrers() {
+				if st, ok := rr.(*ssa.Store); ok && st.Addr == ssa.Value(ia) {
+					e, ok := c14EvalString(st.Val, depth+1)
+					if !ok {
+						return "", false
+					}
+					elems[idx] = e
+				}
+			}
+		}
+		var args []any
+		for i := int64(0); i < int64(len(elems)); i++ {
+			e, ok := elems[i]
+			if !ok {
+				return "", false
+			}
+			args = append(args, e)
+		}
+		for _, verb := range strings.Split(format, "%")[1:] {
+			if verb == "" || !strings.ContainsRune("svq", rune(verb[0])) {
+				return "", false
+			}
+		}
+		return fmt.Sprintf(format, args...), true
+	}
+	return "", false
 }
